@@ -17,6 +17,34 @@ logging.disable(logging.CRITICAL)
 TOKENS = [["i", 1], ["s", "1"], ["s", "t"]]
 CREATE = "window/workDoneProgress/create"
 KINDS = ["begin", "report", "end"]
+# Member shapes of a JSON-RPC response as a peer may serialise it (key order = wire order).  The shape is a
+# trailing annotation of a "res" / "err" event; the model sees only the event (an ack / a reject).
+#   res: 0 = {jsonrpc,id,result}   1 = extra unknown member last   2 = extra unknown member first
+#   err: 0 = {jsonrpc,id,error}    1 = "result": null BEFORE error 2 = "result": null AFTER error
+#        3 = extra unknown member last   4 = id last (error, then id), "result": null first
+RES_SHAPES = 3
+ERR_SHAPES = 5
+
+
+def wire_response(rid, shape, result=c05.MISSING, error=None):
+    if error is None:
+        core_members = [("jsonrpc", "2.0"), ("id", rid)] + ([("result", result)] if result != c05.MISSING else [])
+        if shape == 1:
+            core_members.append(("x-elapsed", 3))
+        elif shape == 2:
+            core_members.insert(0, ("x-elapsed", "3ms"))
+        return dict(core_members)
+    if shape == 1:
+        return {"jsonrpc": "2.0", "id": rid, "result": None, "error": error}
+    if shape == 2:
+        return {"jsonrpc": "2.0", "id": rid, "error": error, "result": None}
+    if shape == 3:
+        return {"jsonrpc": "2.0", "id": rid, "error": error, "x-elapsed": 3}
+    if shape == 4:
+        return {"result": None, "jsonrpc": "2.0", "error": error, "id": rid}
+    return {"jsonrpc": "2.0", "id": rid, "error": error}
+
+
 _SHARED = {}
 _EARLIER = {}          # id(future) -> future: cancellation futures seen in EARLIER cases of this process
 
@@ -148,15 +176,12 @@ def run_case(case):
             elif k == "ccancel":
                 feed({"jsonrpc": "2.0", "method": "window/workDoneProgress/cancel", "params": {"token": e[1][1]}})
             elif k == "res":
-                obj = {"jsonrpc": "2.0", "id": real_id(e[1])}
-                if c05.PAYLOADS[e[2]] != c05.MISSING:
-                    obj["result"] = c05.PAYLOADS[e[2]]
-                feed(obj)
+                feed(wire_response(real_id(e[1]), e[3] if len(e) > 3 else 0, result=c05.PAYLOADS[e[2]]))
             elif k == "err":
                 err = {"code": e[2], "message": c05.MSGS[e[3]]}
                 if c05.DATA[e[4]] != c05.ABSENT:
                     err["data"] = c05.DATA[e[4]]
-                feed({"jsonrpc": "2.0", "id": real_id(e[1]), "error": err})
+                feed(wire_response(real_id(e[1]), e[5] if len(e) > 5 else 0, error=err))
             elif k == "cancel":
                 if e[1] < len(reqs):
                     reqs[e[1]].fut.cancel()
@@ -239,7 +264,12 @@ class C20(core.Property):
             "end, client-cancel, resume} x tokens {1, \"1\", \"t\"} (acks / rejects for every request issued so "
             "far, i.e. at every later point), L = 3 on the full alphabet + 4 on two tokens without end (quick) / 4 "
             "full + 5 on two tokens over create, create_async, begin, cancel, ack, reject, resume + random <= 8 "
-            "(thorough); non-trivial = >= 2 tokens occur, or an ack arrives after "
+            "(thorough); the reply to a create request is wire JSON through structure_message in every member shape "
+            "(ack: plain / extra member last / first; reject: plain / \"result\": null before / after the error "
+            "member / extra member / id last), the shapes taking turns over the enumeration, and exhaustively: one "
+            "token x 3 ways of creating x every reply (shape x code {0, -32603, -32800, 1} x message {empty, m} x "
+            "data {absent, object, 0}) then cancel, re-create, ack, cancel; two pending creates answered in the "
+            "opposite order x every pair of replies; non-trivial = >= 2 tokens occur, or an ack arrives after "
             "another operation on its token")
     trusted_base = ["Coq 8.16.1 kernel incl. vm_compute (Examples)",
                     "extraction with ExtrOcamlBasic only + ocaml/c20_driver.ml + conv_io/conv_n/conv_nat",
@@ -253,6 +283,12 @@ class C20(core.Property):
 
     # ---------------- generation ----------------
     def _enumerate(self, toks, L, ops, out, exact=False):
+        turn = [0]                       # the wire shapes of the replies take turns over the enumeration
+
+        def shape(mod):
+            turn[0] += 1
+            return turn[0] % mod
+
         def rec(seq, reg, pend, waiting, n, depth):
             if seq and (not exact or depth == L):
                 out.append({"evs": list(seq)})
@@ -279,16 +315,56 @@ class C20(core.Property):
                 p2 = dict(pend)
                 ent = p2.pop(j, None)
                 # ack (result null)
+                ack = ["res", ["u", j], 1, shape(RES_SHAPES)]
                 if ent is None:
-                    rec(seq + [["res", ["u", j], 1]], reg, p2, waiting, n, depth + 1)
+                    rec(seq + [ack], reg, p2, waiting, n, depth + 1)
                 elif ent[1]:
-                    rec(seq + [["res", ["u", j], 1]], reg, p2, waiting + [ent[0]], n, depth + 1)
+                    rec(seq + [ack], reg, p2, waiting + [ent[0]], n, depth + 1)
                 else:
-                    rec(seq + [["res", ["u", j], 1]], reg | {ent[0]}, p2, waiting, n, depth + 1)
+                    rec(seq + [ack], reg | {ent[0]}, p2, waiting, n, depth + 1)
                 # reject (error; code 0 and empty message every other time)
                 code, mi = (0, 0) if (j + depth) % 2 == 0 else (-32603, 1)
-                rec(seq + [["err", ["u", j], code, mi, 0]], reg, p2, waiting, n, depth + 1)
+                rec(seq + [["err", ["u", j], code, mi, 0, shape(ERR_SHAPES)]], reg, p2, waiting, n, depth + 1)
         rec([], frozenset(), {}, [], 0, 0)
+
+    def _replies(self, small=False):
+        """Every reply a JSON-RPC peer may give to one create request: ack / reject x member shape x error body."""
+        out = [["res", None, 1, sh] for sh in range(RES_SHAPES)]
+        bodies = [(0, 0, 0), (-32603, 1, 0)] if small else \
+            [(code, mi, di) for code in (0, -32603, -32800, 1) for mi in (0, 1) for di in (0, 1, 3)]
+        for sh in range(ERR_SHAPES):
+            for code, mi, di in bodies:
+                out.append(["err", None, code, mi, di, sh])
+        return out
+
+    def _reply_shapes(self, out):
+        """Wire shapes of the client's reply, exhaustive: (a) one token, every way of creating it, every reply,
+        then cancel / re-create / ack / cancel; (b) two pending creates answered in the opposite order, every
+        pair of (small) replies, then both cancels and both re-creates."""
+        def at(r, j):
+            return r[:1] + [["u", j]] + r[2:]
+
+        def mk(op, t, cb):
+            return [op, t, cb] if op == "create" else [op, t]
+        modes = [("create", 1), ("create", 0), ("acreate", 0)]
+        for t in TOKENS:
+            for op, cb in modes:
+                for i, r in enumerate(self._replies()):
+                    for op2, cb2 in ((("create", 1), ("acreate", 0))[i % 2],):      # the re-create: taking turns
+                        accepted = r[0] == "err"
+                        evs = [mk(op, t, cb), at(r, 0), ["resume"], ["ccancel", t], mk(op2, t, cb2)]
+                        if accepted:                     # S: a rejected token can be created again
+                            evs += [at(["res", None, 1, 0], 1), ["resume"], ["ccancel", t]]
+                        else:
+                            evs += [["begin", t, 2], ["ccancel", t]]
+                        out.append({"evs": evs})
+        small = self._replies(small=True)
+        for a, b in ((TOKENS[0], TOKENS[1]), (TOKENS[1], TOKENS[2])):
+            for (op, cb), (op2, cb2) in ((modes[0], modes[2]), (modes[2], modes[1]), (modes[2], modes[2])):
+                for ra in small:
+                    for rb in small:
+                        out.append({"evs": [mk(op, a, cb), mk(op2, b, cb2), at(rb, 1), at(ra, 0), ["resume"],
+                                            ["ccancel", a], ["ccancel", b], mk("create", a, 1)]})
 
     def generate(self, chk):
         cases = []
@@ -304,6 +380,7 @@ class C20(core.Property):
             self._enumerate(TOKENS[:2], 4, red_ops, cases, exact=True)
         else:
             self._enumerate(TOKENS[:2], 5, ["create", "acreate", "begin", "ccancel"], cases, exact=True)
+        self._reply_shapes(cases)
         rng = chk.rng
         for _ in range(chk.n(1500, 30000)):
             cases.append(self._random(rng, rng.randint(5, 8)))
@@ -326,14 +403,15 @@ class C20(core.Property):
                 j = rng.randrange(n)
                 ent = pend.pop(j, None)
                 if rng.random() < 0.7:
-                    evs.append(["res", ["u", j], 1])
+                    evs.append(["res", ["u", j], 1, rng.randrange(RES_SHAPES)])
                     if ent is not None:
                         if ent[1]:
                             waiting.append(ent[0])
                         else:
                             reg.add(ent[0])
                 else:
-                    evs.append(["err", ["u", j], rng.choice(c05.CODES_INT32), rng.randrange(4), rng.randrange(6)])
+                    evs.append(["err", ["u", j], rng.choice(c05.CODES_INT32), rng.randrange(4), rng.randrange(6),
+                                rng.randrange(ERR_SHAPES)])
             elif r < 0.60:
                 evs.append(["resume"]); reg |= set(waiting); waiting = []
             elif r < 0.72:
@@ -450,6 +528,11 @@ class C20(core.Property):
                         waiting.append(created[j][0])
                     else:
                         reg_expect.add(created[j][0])
+            if k == "err" and e[1][0] == "u" and e[1][1] < len(created):
+                j = e[1][1]
+                if prev["futs"][j][0] == 0:                        # the reject of a pending create, in any wire shape:
+                    if d["futs"][j] != [2, prev["futs"][j][1]]:    # the future / awaiter fails, on_created does not run
+                        return False
             if k == "resume":
                 reg_expect |= set(waiting); waiting = []
             # registered iff begun or create acknowledged with a result (and resumed)
@@ -483,6 +566,9 @@ class C20(core.Property):
             d[f"len={len(c['evs'])}"] = d.get(f"len={len(c['evs'])}", 0) + 1
             for e in c["evs"]:
                 d["op:" + e[0]] = d.get("op:" + e[0], 0) + 1
+                if e[0] in ("res", "err"):
+                    sh = e[3] if e[0] == "res" and len(e) > 3 else e[5] if e[0] == "err" and len(e) > 5 else 0
+                    d[f"wire:{e[0]}/{sh}"] = d.get(f"wire:{e[0]}/{sh}", 0) + 1
         return d
 
 
